@@ -659,7 +659,7 @@ func (e *Env) sel(x *ESel) *SVal {
 		if g.inQuant == 0 && !isAggregate(ft) {
 			if hasRefs(ft) {
 				if ver := g.versionOf(e.stateFor(fa), fa, ft); ver != "" {
-					g.addAxiom(g.refFactsVer(e.cur, ver, r))
+					g.addAxiom(g.refFactsAt(e.cur, ver, fa, r))
 				}
 			}
 			if ti := g.typeInv(r); ti != "true" {
